@@ -1,98 +1,343 @@
 ----------------------------- MODULE RemoteUnit -----------------------------
 (***************************************************************************)
-(* C04, remote units: the submitting node's side of ONE remote work unit,  *)
-(* at the grain of the status rewrites of pkg/workceptor/remote_work.go:   *)
-(*   startRemoteUnit   send "work submit" to the executor -> the executor  *)
-(*                     creates a unit and answers its id; rewrite #1       *)
-(*                     stores RemoteUnitID; ship stdin; the executor       *)
-(*                     confirms; rewrite #2 stores RemoteStarted = true    *)
-(*   Restart           RemoteStarted -> resume monitoring (startOrRestart  *)
-(*                     (false)); otherwise error -> scanForUnit marks the  *)
-(*                     unit Failed ("remote work had not previously        *)
-(*                     started")                                           *)
-(*   startOrRestart    if start \/ ~RemoteStarted: submit (again)          *)
-(* CrashSubmitter is enabled in every state.  The executor node is a       *)
-(* counter of the units it was asked to create and a reachability flag.    *)
-(* RestartIfIdKnown = TRUE is the seeded change c04-restart-resubmits-     *)
-(* with-remote-id (Restart also resumes when only the id is on record).    *)
+(* The remote-work protocol of pkg/workceptor/remote_work.go between a     *)
+(* submitting node S and an executing node E for ONE local unit, over a    *)
+(* link that can drop and come back, with S-daemon crash and restart.      *)
+(* One action per network round trip or status rewrite:                    *)
+(*   startRemoteUnit      connect, "work submit" (E creates a unit and     *)
+(*                        answers its id), rewrite RemoteUnitID, ship      *)
+(*                        stdin + confirmation, rewrite RemoteStarted      *)
+(*   monitorRemoteStatus  own connection; "work status <id>" once a second;*)
+(*                        the answer is copied verbatim into the local     *)
+(*                        record (UpdateBasicStatus); reconnect after any  *)
+(*                        error; "unknown work unit" ends it               *)
+(*   monitorRemoteStdout  own connection; Load; if local size < recorded   *)
+(*                        size: "work results <id> <local size>" appended  *)
+(*                        to the local stdout file; ends (and cancels the  *)
+(*                        status monitor) when the state is complete and   *)
+(*                        the local file has the recorded size             *)
+(*   cancelOrRelease      rewrite LocalCancelled/LocalReleased; stop the   *)
+(*                        monitors; ONE synchronous connect attempt; if it *)
+(*                        fails answer "pending" and retry the CONNECT in  *)
+(*                        the background for ever; the request itself is   *)
+(*                        sent ONCE                                        *)
+(*   Restart              RemoteStarted: resume (monitors, or the pending  *)
+(*                        cancel/release); otherwise Failed                *)
+(* E is an ordinary command unit: pending -> running -> finished, cancel,  *)
+(* release removes.                                                        *)
+(*                                                                         *)
+(* Behaviour of the code that the properties have to live with (named):    *)
+(*  D1 the request of a cancel/release/submit is sent once; if that one    *)
+(*     round trip fails after the connection was made in the background    *)
+(*     path, nothing retries it (gaveUp);                                  *)
+(*  D2 after a cancel whose request failed, the monitors stay stopped;     *)
+(*  D3 a non-forced release of a unit E no longer knows fails for ever;    *)
+(*  D4 "released" is answered when E has confirmed, before the local       *)
+(*     removal (finding C13:remote-release-answered-before-removal);       *)
+(*  D5 after a restart with a pending cancel only the status monitor runs  *)
+(*     (forRelease = true is passed): the output is not mirrored further;  *)
+(*  D6 a submission interrupted after E's answer leaves an orphan on E.    *)
+(* RestartIfIdKnown = TRUE is the seeded change c04-restart-resubmits-...  *)
+(* SendOnce = FALSE / StdoutFromZero = TRUE / ReleaseSkipsRemote = TRUE    *)
+(* are mutation constants used to show what each mechanism is for.         *)
 (***************************************************************************)
-EXTENDS Naturals, TLC
+EXTENDS Naturals, FiniteSets, TLC
 
-CONSTANTS MaxCrashes, RestartIfIdKnown
+CONSTANTS MaxOut,            \* output chunks E's payload writes
+          MaxFlaps,          \* link-down events
+          MaxCrashes,        \* S-daemon crashes
+          ClientOps,         \* subset of {"cancel", "release", "frelease"} a client of S may issue (each once)
+          RestartIfIdKnown,  \* seeded: Restart resumes when only the remote id is on record
+          StdoutFromZero,    \* mutation: results are requested from 0 after a reconnect
+          ReleaseSkipsRemote \* mutation: a release issued while the link is down skips the remote call
 
-VARIABLES up,        \* the submitting daemon runs
-          loc,       \* its goroutine for this unit: idle, got_id, id_stored, shipped, monitoring, retrying
-          rid,       \* RemoteUnitID on disk (0 = "")
-          started,   \* RemoteStarted on disk
-          state,     \* State on disk: "P", "R", "S", "F"
-          pendingId, \* the id the executor answered, not yet stored
-          units,     \* number of units the executor has created for this ONE submission
-          reach,     \* the executor can be reached right now
-          acked,     \* the local unit id was given to the client
-          bound,     \* ghost: the first remote id ever stored (0 = none)
-          crashes
+Final == {"S", "F", "C"}
+Stage(s) == CASE s = "P" -> 0 [] s = "R" -> 1 [] OTHER -> 2
+Complete(s) == s \in {"S", "F"}
 
-vars == <<up, loc, rid, started, state, pendingId, units, reach, acked, bound, crashes>>
+VARIABLES
+  link, flaps,
+  \* ---- E
+  est,       \* "none" | "P" | "R" | "S" | "F" | "C" | "gone" (released)
+  eout,      \* chunks in E's stdout
+  ecount,    \* units E created for this local unit
+  ehist,     \* states E's unit has been in
+  ecan,      \* E was asked to cancel
+  stdinDone, \* E has the complete stdin (its unit may start)
+  \* ---- S, on disk
+  known,     \* the local unit exists (index + directory)
+  rid, started, lcan, lrel, st, sz,
+  lout,      \* chunks in the local stdout file (a number: appended chunks are E's chunks lout+1.. unless dup)
+  dup,       \* ghost: the local stdout is NOT a prefix of E's (a chunk was appended twice)
+  \* ---- S, volatile
+  up, crashes,
+  m,         \* the goroutine of the client-visible operation / background action
+  mop,       \* which operation m carries: "submit" | "cancel" | "release" | "frelease" | "none"
+  bg,        \* m runs in the background path (the client was answered "pending")
+  sm, smfr,  \* status monitor: "off" | "connect" | "poll"; its forRelease flag
+  om,        \* stdout monitor: "off" | "check" | "connect" | "req" | "copy"
+  omconn,    \* the stdout monitor has (re)connected at least once before
+  \* ---- client, ghosts
+  ops,       \* client operations not yet issued
+  ans,       \* [op -> "none" | "ok" | "pending" | "error"]
+  gaveUp,    \* D1 happened
+  reconn,    \* a monitor reconnected after an error
+  retried,   \* a background connect attempt failed at least once
+  relGone,   \* a release was sent when E no longer knew the unit
+  bad        \* violated step properties
 
-Init == up = TRUE /\ loc = "submit" /\ rid = 0 /\ started = FALSE /\ state = "P" /\ pendingId = 0 /\ units = 0
-        /\ reach = TRUE /\ acked = TRUE /\ bound = 0 /\ crashes = 0
+vars == <<link, flaps, est, eout, ecount, ehist, ecan, stdinDone, known, rid, started, lcan, lrel, st, sz, lout, dup,
+          up, crashes, m, mop, bg, sm, smfr, om, omconn, ops, ans, gaveUp, reconn, retried, relGone, bad>>
 
-\* the environment: the executor node comes and goes
-Flap == reach' = ~reach /\ UNCHANGED <<up, loc, rid, started, state, pendingId, units, acked, bound, crashes>>
+evars == <<est, eout, ecount, ehist, ecan, stdinDone>>
+disk  == <<known, rid, started, lcan, lrel, st, sz, lout, dup>>
+mons  == <<sm, smfr, om, omconn>>
+ghost == <<gaveUp, reconn, retried, relGone>>
 
-\* "work submit" reaches the executor: it creates a unit and answers "Work unit created with ID ..."
-SendSubmit == /\ up /\ loc = "submit" /\ reach
-              /\ units' = units + 1 /\ pendingId' = units + 1 /\ loc' = "got_id"
-              /\ UNCHANGED <<up, rid, started, state, reach, acked, bound, crashes>>
+Init ==
+  /\ link = TRUE /\ flaps = 0
+  /\ est = "none" /\ eout = 0 /\ ecount = 0 /\ ehist = {} /\ ecan = FALSE /\ stdinDone = FALSE
+  /\ known = TRUE /\ rid = 0 /\ started = FALSE /\ lcan = FALSE /\ lrel = FALSE /\ st = "P" /\ sz = 0 /\ lout = 0 /\ dup = FALSE
+  /\ up = TRUE /\ crashes = 0
+  /\ m = "connect" /\ mop = "submit" /\ bg = FALSE
+  /\ sm = "off" /\ smfr = FALSE /\ om = "off" /\ omconn = FALSE
+  /\ ops = ClientOps /\ ans = [o \in {"submit", "cancel", "release", "frelease"} |-> "none"]
+  /\ gaveUp = FALSE /\ reconn = FALSE /\ retried = FALSE /\ relGone = FALSE /\ bad = {}
 
-\* executor unreachable: getConnectionAndRun returns ErrPending and retries in the background
-SubmitPending == /\ up /\ loc = "submit" /\ ~reach /\ loc' = "submit"
-                 /\ UNCHANGED <<up, rid, started, state, pendingId, units, reach, acked, bound, crashes>>
+\* every rewrite of the local state goes through here: C13 step properties on the local record
+SetSt(new, newsz) ==
+  /\ st' = new /\ sz' = newsz
+  /\ bad' = bad \cup (IF Stage(new) < Stage(st) THEN {"StageMonotone"} ELSE {})
+                \cup (IF st = "S" /\ (new # "S" \/ newsz # sz) THEN {"SucceededIsFinal"} ELSE {})
+                \cup (IF newsz < sz THEN {"SizeMonotone"} ELSE {})
+                \cup (IF new \in {"R", "S", "C"} /\ new \notin ehist THEN {"Contradicts"} ELSE {})
 
-\* rewrite #1: UpdateFullStatus(RemoteUnitID)
-StoreId == /\ up /\ loc = "got_id"
-           /\ rid' = pendingId /\ bound' = IF bound = 0 THEN pendingId ELSE bound
-           /\ loc' = "id_stored"
-           /\ UNCHANGED <<up, started, state, pendingId, units, reach, acked, crashes>>
+\* ---------------------------------------------------------------- environment
+LinkDown == /\ link /\ flaps < MaxFlaps /\ link' = FALSE /\ flaps' = flaps + 1
+            /\ UNCHANGED <<evars, disk, up, crashes, m, mop, bg, mons, ops, ans, ghost, bad>>
+LinkUp   == /\ ~link /\ link' = TRUE
+            /\ UNCHANGED <<flaps, evars, disk, up, crashes, m, mop, bg, mons, ops, ans, ghost, bad>>
 
-\* io.Copy(conn, stdin); conn.Close(); the executor confirms
-ShipStdin == /\ up /\ loc = "id_stored" /\ reach /\ loc' = "shipped"
-             /\ UNCHANGED <<up, rid, started, state, pendingId, units, reach, acked, bound, crashes>>
+CrashS == /\ up /\ crashes < MaxCrashes
+          /\ up' = FALSE /\ crashes' = crashes + 1
+          /\ m' = "idle" /\ mop' = "none" /\ bg' = FALSE /\ sm' = "off" /\ smfr' = FALSE /\ om' = "off" /\ omconn' = FALSE
+          /\ UNCHANGED <<link, flaps, evars, disk, ops, ans, ghost, bad>>
 
-\* rewrite #2: UpdateFullStatus(RemoteStarted = true); monitors start
-StoreStarted == /\ up /\ loc = "shipped"
-                /\ started' = TRUE /\ loc' = "monitoring"
-                /\ UNCHANGED <<up, rid, state, pendingId, units, reach, acked, bound, crashes>>
+\* scanForUnit -> remoteUnit.Restart -> startOrRestart(false)
+RestartS ==
+  /\ ~up /\ up' = TRUE
+  /\ IF ~known THEN UNCHANGED <<st, sz, bad, m, mop, sm, smfr, om>>
+     ELSE IF started THEN
+            IF lrel \/ lcan
+              THEN /\ m' = "connect" /\ mop' = (IF lrel THEN "release" ELSE "cancel")
+                   /\ UNCHANGED <<st, sz, bad, sm, smfr, om>>
+              ELSE /\ sm' = "connect" /\ smfr' = FALSE /\ om' = "check" /\ UNCHANGED <<st, sz, bad, m, mop>>
+     ELSE IF RestartIfIdKnown /\ rid # 0
+            THEN m' = "connect" /\ mop' = "submit" /\ UNCHANGED <<st, sz, bad, sm, smfr, om>>
+            ELSE SetSt("F", sz) /\ UNCHANGED <<m, mop, sm, smfr, om>>     \* "remote work had not previously started"
+  /\ UNCHANGED <<link, flaps, evars, known, rid, started, lcan, lrel, lout, dup, crashes, bg, omconn, ops, ans, ghost>>
 
-\* the status mirror follows the executor's unit to its end
-Mirror == /\ up /\ loc = "monitoring" /\ reach /\ state \in {"P", "R"}
-          /\ state' = IF state = "P" THEN "R" ELSE "S"
-          /\ UNCHANGED <<up, loc, rid, started, pendingId, units, reach, acked, bound, crashes>>
+\* ---------------------------------------------------------------- E: an ordinary command unit
+EStart  == /\ est = "P" /\ stdinDone /\ est' = "R" /\ ehist' = ehist \cup {"R"}
+           /\ UNCHANGED <<link, flaps, eout, ecount, ecan, stdinDone, disk, up, crashes, m, mop, bg, mons, ops, ans, ghost, bad>>
+EWrite  == /\ est = "R" /\ eout < MaxOut /\ eout' = eout + 1
+           /\ UNCHANGED <<link, flaps, est, ecount, ehist, ecan, stdinDone, disk, up, crashes, m, mop, bg, mons, ops, ans, ghost, bad>>
+EFinish == /\ est = "R" /\ \E r \in {"S", "F"} : est' = r /\ ehist' = ehist \cup {r}
+           /\ UNCHANGED <<link, flaps, eout, ecount, ecan, stdinDone, disk, up, crashes, m, mop, bg, mons, ops, ans, ghost, bad>>
+ECancel == /\ ecan /\ est \in {"P", "R", "F"} /\ est' = "C" /\ ehist' = ehist \cup {"C"}    \* (a unit that succeeded stays succeeded)
+           /\ UNCHANGED <<link, flaps, eout, ecount, ecan, stdinDone, disk, up, crashes, m, mop, bg, mons, ops, ans, ghost, bad>>
 
-CrashSubmitter == /\ up /\ crashes < MaxCrashes
-                  /\ up' = FALSE /\ loc' = "down" /\ pendingId' = 0 /\ crashes' = crashes + 1
-                  /\ UNCHANGED <<rid, started, state, units, reach, acked, bound>>
+\* ---------------------------------------------------------------- the goroutine m: connect, then ONE request
+\* connectAndRun (synchronous, once); on a connection error: answer "pending", getConnection retries for ever
+MConnect ==
+  /\ up /\ known /\ m = "connect"
+  /\ CASE link -> m' = "send" /\ UNCHANGED <<bg, ans, retried>>
+       [] ~link /\ mop = "frelease" -> m' = "frel_local" /\ UNCHANGED <<bg, ans, retried>>   \* single attempt, error only logged
+       [] ~link /\ mop # "frelease" /\ bg -> retried' = TRUE /\ UNCHANGED <<m, bg, ans>>     \* getConnection: retry for ever
+       [] OTHER -> bg' = TRUE /\ ans' = [ans EXCEPT ![mop] = "pending"] /\ UNCHANGED <<m, retried>>
+  /\ UNCHANGED <<link, flaps, evars, disk, up, crashes, mop, mons, ops, gaveUp, reconn, relGone, bad>>
 
-\* scanForUnit -> remoteUnit.Restart
-Restart == /\ ~up /\ up' = TRUE
-           /\ IF started THEN loc' = "monitoring" /\ UNCHANGED state
-              ELSE IF RestartIfIdKnown /\ rid # 0
-                     THEN loc' = "submit" /\ UNCHANGED state        \* startOrRestart(false) with ~RemoteStarted: submits again
-                     ELSE loc' = "failed" /\ state' = "F"           \* "remote work had not previously started"
-           /\ UNCHANGED <<rid, started, pendingId, units, reach, acked, bound, crashes>>
+\* the one request failed after the connection had been made (D1): background -> nobody retries;
+\* synchronous -> the client gets the error (submit: controlsvc marks the unit Failed)
+MFail ==
+  /\ gaveUp' = (gaveUp \/ bg)
+  /\ ans' = [ans EXCEPT ![mop] = IF bg THEN @ ELSE "error"]
+  /\ m' = "idle" /\ mop' = "none" /\ bg' = FALSE
 
-Next == Flap \/ SendSubmit \/ SubmitPending \/ StoreId \/ ShipStdin \/ StoreStarted \/ Mirror \/ CrashSubmitter \/ Restart
+\* "work submit": E creates the unit and answers its id
+SubmitSend ==
+  /\ up /\ known /\ m = "send" /\ mop = "submit"
+  /\ IF link THEN /\ ecount' = ecount + 1 /\ est' = "P" /\ ehist' = ehist \cup {"P"} /\ eout' = 0 /\ stdinDone' = FALSE /\ ecan' = FALSE
+                  /\ m' = "store_id" /\ UNCHANGED <<mop, bg, ans, gaveUp, st, sz, bad>>
+     ELSE /\ MFail /\ UNCHANGED evars
+          /\ IF bg THEN UNCHANGED <<st, sz, bad>> ELSE SetSt("F", sz)      \* "Error starting worker"
+  /\ UNCHANGED <<link, flaps, known, rid, started, lcan, lrel, lout, dup, up, crashes, mons, ops, reconn, retried, relGone>>
+
+StoreId ==
+  /\ up /\ known /\ m = "store_id" /\ rid' = ecount /\ m' = "ship"
+  /\ UNCHANGED <<link, flaps, evars, known, started, lcan, lrel, st, sz, lout, dup, up, crashes, mop, bg, mons, ops, ans, ghost, bad>>
+
+ShipStdin ==
+  /\ up /\ known /\ m = "ship"
+  /\ IF link /\ est # "gone" THEN stdinDone' = TRUE /\ m' = "store_started" /\ UNCHANGED <<mop, bg, ans, gaveUp, st, sz, bad>>
+     ELSE /\ MFail /\ UNCHANGED stdinDone
+          /\ IF bg THEN UNCHANGED <<st, sz, bad>> ELSE SetSt("F", sz)
+  /\ UNCHANGED <<link, flaps, est, eout, ecount, ehist, ecan, known, rid, started, lcan, lrel, lout, dup, up, crashes, mons, ops, reconn, retried, relGone>>
+
+StoreStarted ==
+  /\ up /\ known /\ m = "store_started"
+  /\ started' = TRUE /\ ans' = [ans EXCEPT !["submit"] = IF bg THEN @ ELSE "ok"]
+  /\ m' = "idle" /\ mop' = "none" /\ bg' = FALSE
+  /\ sm' = "connect" /\ smfr' = FALSE /\ om' = "check"
+  /\ UNCHANGED <<link, flaps, evars, known, rid, lcan, lrel, st, sz, lout, dup, up, crashes, omconn, ops, ghost, bad>>
+
+\* "work cancel <id>" / "work release <id>" at E
+CancelSend ==
+  /\ up /\ known /\ m = "send" /\ mop \in {"cancel", "release", "frelease"}
+  /\ LET rel == mop # "cancel" IN
+     IF ~link THEN
+          /\ UNCHANGED <<evars, relGone>>
+          /\ IF mop = "frelease" THEN m' = "frel_local" /\ UNCHANGED <<mop, bg, ans, gaveUp>> ELSE MFail
+          /\ UNCHANGED <<sm, smfr, om>>                                   \* D2: the monitors were stopped and stay so
+     ELSE IF est \in {"none", "gone"} THEN                                \* "ERROR: unknown work unit"
+          /\ relGone' = (relGone \/ rel) /\ UNCHANGED evars
+          /\ IF mop = "frelease" THEN m' = "frel_local" /\ UNCHANGED <<mop, bg, ans, gaveUp>> ELSE MFail    \* D3
+          /\ UNCHANGED <<sm, smfr, om>>
+     ELSE /\ IF rel THEN est' = "gone" /\ UNCHANGED <<ecan, ehist>>
+                    ELSE ecan' = TRUE /\ UNCHANGED <<est, ehist>>
+          /\ UNCHANGED <<eout, ecount, stdinDone, relGone, gaveUp>>
+          /\ IF mop = "frelease" THEN m' = "frel_local" /\ UNCHANGED <<mop, bg, ans, sm, smfr, om>>
+             ELSE /\ ans' = [ans EXCEPT ![mop] = IF bg THEN @ ELSE "ok"]            \* D4 for release
+                  /\ m' = "idle" /\ mop' = "none" /\ bg' = FALSE
+                  \* monitorRemoteUnit(forRelease): release, or a cancel resumed at restart (D5), watch the status only
+                  /\ sm' = "connect" /\ smfr' = (rel \/ crashes > 0)
+                  /\ om' = IF rel \/ crashes > 0 THEN "off" ELSE "check"
+  /\ UNCHANGED <<link, flaps, disk, up, crashes, omconn, ops, reconn, retried, bad>>
+
+\* BaseWorkUnit.Release: the local unit and its files go
+LocalRemove == known' = FALSE /\ lout' = 0 /\ UNCHANGED <<rid, started, lcan, lrel, st, sz, dup>>
+
+ForceReleaseLocal ==
+  /\ up /\ known /\ m = "frel_local"
+  /\ LocalRemove /\ ans' = [ans EXCEPT ![mop] = "ok"]
+  /\ m' = "idle" /\ mop' = "none" /\ bg' = FALSE /\ sm' = "off" /\ om' = "off"
+  /\ UNCHANGED <<link, flaps, evars, up, crashes, smfr, omconn, ops, ghost, bad>>
+
+\* ---------------------------------------------------------------- client operations at S
+ClientCancel ==
+  /\ up /\ known /\ m = "idle" /\ "cancel" \in ops /\ ops' = ops \ {"cancel"}
+  /\ lcan' = TRUE
+  /\ IF ~started
+       THEN /\ SetSt("F", 0) /\ ans' = [ans EXCEPT !["cancel"] = "ok"]       \* "Locally Cancelled"
+            /\ UNCHANGED <<m, mop, sm, om>>
+       ELSE /\ m' = "connect" /\ mop' = "cancel" /\ sm' = "off" /\ om' = "off"  \* topJC.NewJob stops the monitors
+            /\ UNCHANGED <<st, sz, bad, ans>>
+  /\ UNCHANGED <<link, flaps, evars, known, rid, started, lrel, lout, dup, up, crashes, bg, smfr, omconn, ghost>>
+
+ClientRelease(force) ==
+  /\ up /\ known /\ m = "idle"
+  /\ LET o == IF force THEN "frelease" ELSE "release" IN
+     /\ o \in ops /\ ops' = ops \ {o}
+     /\ lcan' = TRUE /\ lrel' = TRUE
+     /\ IF ~started
+          THEN /\ known' = FALSE /\ lout' = 0 /\ ans' = [ans EXCEPT ![o] = "ok"]   \* Release(true)
+               /\ UNCHANGED <<m, mop, sm, om>>
+          ELSE /\ IF ReleaseSkipsRemote /\ ~link /\ ~force
+                    THEN m' = "frel_local" /\ mop' = o
+                    ELSE m' = "connect" /\ mop' = o
+               /\ sm' = "off" /\ om' = "off" /\ UNCHANGED <<known, lout, ans>>
+  /\ UNCHANGED <<link, flaps, evars, rid, started, st, sz, dup, up, crashes, bg, smfr, omconn, ghost, bad>>
+
+\* ---------------------------------------------------------------- monitorRemoteStatus
+SMConnect == /\ up /\ known /\ sm = "connect" /\ link /\ sm' = "poll"
+             /\ UNCHANGED <<link, flaps, evars, disk, up, crashes, m, mop, bg, smfr, om, omconn, ops, ans, ghost, bad>>
+
+SMPoll ==
+  /\ up /\ known /\ sm = "poll"
+  /\ IF ~link THEN /\ sm' = "connect" /\ reconn' = TRUE
+                   /\ UNCHANGED <<known, lout, st, sz, bad, om, smfr>>
+     ELSE IF est \in {"none", "gone"} THEN                                  \* "unknown work unit"
+          /\ sm' = "off" /\ om' = "off" /\ UNCHANGED <<reconn, smfr>>
+          /\ IF smfr THEN known' = FALSE /\ lout' = 0 /\ UNCHANGED <<st, sz, bad>>   \* then BaseWorkUnit.Release(false)
+                     ELSE SetSt("F", sz) /\ UNCHANGED <<known, lout>>        \* "Remote work unit is gone"
+     ELSE /\ SetSt(IF est = "C" /\ st = "S" THEN "S" ELSE est, eout)         \* UpdateBasicStatus(si.State, si.Detail, si.StdoutSize)
+          /\ UNCHANGED <<sm, om, reconn, smfr, known, lout>>
+  /\ UNCHANGED <<link, flaps, evars, rid, started, lcan, lrel, dup, up, crashes, m, mop, bg, omconn, ops, ans, gaveUp, retried, relGone>>
+
+\* ---------------------------------------------------------------- monitorRemoteStdout
+OMCheck ==
+  /\ up /\ known /\ om = "check"
+  /\ IF Complete(st) /\ lout >= sz THEN om' = "off" /\ sm' = "off"           \* done: mw.Cancel() stops the status monitor too
+     ELSE IF lout < sz THEN om' = "connect" /\ UNCHANGED sm
+     ELSE UNCHANGED <<om, sm>>
+  /\ UNCHANGED <<link, flaps, evars, disk, up, crashes, m, mop, bg, smfr, omconn, ops, ans, ghost, bad>>
+
+OMConnect == /\ up /\ known /\ om = "connect" /\ link /\ om' = "req"
+             /\ reconn' = (reconn \/ omconn) /\ omconn' = TRUE
+             /\ UNCHANGED <<link, flaps, evars, disk, up, crashes, m, mop, bg, sm, smfr, ops, ans, gaveUp, retried, relGone, bad>>
+
+\* "work results <id> <startpos>" + the copy of what E streams (E ends the stream when the unit is complete)
+OMCopy ==
+  /\ up /\ known /\ om = "req"
+  /\ IF ~link \/ est \in {"none", "gone"} THEN om' = "check" /\ UNCHANGED <<lout, dup>>
+     ELSE LET from == IF StdoutFromZero /\ omconn /\ reconn THEN 0 ELSE lout IN
+          /\ lout' = lout + (eout - from)
+          /\ dup' = (dup \/ from < lout)
+          /\ om' = "check"
+  /\ UNCHANGED <<link, flaps, evars, known, rid, started, lcan, lrel, st, sz, up, crashes, m, mop, bg, sm, smfr, omconn, ops, ans, ghost, bad>>
+
+Next ==
+  \/ LinkDown \/ LinkUp \/ CrashS \/ RestartS
+  \/ EStart \/ EWrite \/ EFinish \/ ECancel
+  \/ MConnect \/ SubmitSend \/ StoreId \/ ShipStdin \/ StoreStarted \/ CancelSend \/ ForceReleaseLocal
+  \/ ClientCancel \/ ClientRelease(FALSE) \/ ClientRelease(TRUE)
+  \/ SMConnect \/ SMPoll \/ OMCheck \/ OMConnect \/ OMCopy
+
 Spec == Init /\ [][Next]_vars
 
-\* ---- C04 for remote units
-\* the unit stays bound to the remote unit whose id was first put on record
-BindingStable == rid = 0 \/ rid = bound
-\* the work is handed to the executor once per submission (no connection failures are modelled, only crashes)
-NoResubmission == crashes > 0 => units <= 1 \/ bound = 0
-SubmittedOnce == units <= 1
-\* after a restart a unit whose submission had not completed is Failed, not left Pending
-NeverStartedIsFailed == (up /\ crashes > 0 /\ ~started /\ loc \in {"failed", "submit"}) => state = "F"
+\* ---------------------------------------------------------------- safety
+\* C13: the local state only moves forward, a succeeded unit stays succeeded, sizes do not shrink, and S never reports
+\* a state (running/succeeded/cancelled) E's unit has not been in
+ForwardOnly      == "StageMonotone" \notin bad /\ "SucceededIsFinal" \notin bad /\ "SizeMonotone" \notin bad
+NeverContradictsE == "Contradicts" \notin bad
+\* C05: the local stdout is a prefix of E's
+LocalOutputIsPrefix == ~dup /\ (known => lout <= eout)
+\* C04: the work is handed to E at most once per local unit; the binding never changes
+SubmittedOnce  == ecount <= 1
+\* C04: after a restart a unit whose submission had not completed is Failed, not Pending
+NeverStartedIsFailed == (up /\ crashes > 0 /\ known /\ ~started /\ m = "idle") => st = "F"
+\* C04/C13: a cancel accepted at S is on disk (LocalCancelled) before anything else happens, so a restart re-issues it
+CancelSurvivesRestart == (up /\ crashes > 0 /\ known /\ started /\ lcan /\ ~lrel /\ ~ecan /\ est \notin {"none", "gone"})
+                            => (m \in {"connect", "send"} /\ mop = "cancel") \/ gaveUp \/ ans["cancel"] = "error"
+\* C13: a non-forced release that was answered "released" and whose local removal is done: neither side knows the unit
+\* (D6: a unit whose submission did not complete is released locally only; if S died between E's answer and the rewrite of
+\* RemoteUnitID, E keeps a unit nobody at S knows the id of)
+ReleaseRemovesBoth == (ans["release"] = "ok" /\ ~known /\ started) => (est \in {"none", "gone"} /\ lout = 0)
+\* C13: a forced release that was answered: S does not know the unit any more
+ForcedReleaseRemovesLocal == ans["frelease"] = "ok" => (~known /\ lout = 0)
+\* ---------------------------------------------------------------- liveness (RemoteUnit_live.cfg: fairness, link eventually stays up)
+Quiet == flaps = MaxFlaps /\ link /\ crashes = MaxCrashes /\ up
+Fair == /\ WF_vars(LinkUp) /\ WF_vars(RestartS)
+        /\ WF_vars(EStart) /\ WF_vars(EWrite \/ EFinish) /\ WF_vars(ECancel)
+        /\ WF_vars(MConnect) /\ WF_vars(SubmitSend) /\ WF_vars(StoreId) /\ WF_vars(ShipStdin) /\ WF_vars(StoreStarted)
+        /\ WF_vars(CancelSend) /\ WF_vars(ForceReleaseLocal)
+        /\ WF_vars(SMConnect) /\ WF_vars(SMPoll) /\ WF_vars(OMCheck) /\ WF_vars(OMConnect) /\ WF_vars(OMCopy)
+LiveSpec == Spec /\ Fair
+\* when the link stays up the mirror catches up: complete state and the whole output (unless the code gave up, D1/D2/D5,
+\* the unit was cancelled/released locally, or E's unit is gone)
+OutputEventuallyComplete ==
+  (Quiet /\ known /\ started /\ ~lcan /\ ~gaveUp) ~> (~known \/ lcan \/ (Complete(st) /\ lout = eout) \/ est \in {"none", "gone"})
+\* a cancel issued at S reaches E when the link stays up - unless the single request was lost (D1) or answered with an error
+CancelEventuallyReachesE ==
+  (Quiet /\ known /\ started /\ lcan /\ ~lrel) ~> (ecan \/ gaveUp \/ ans["cancel"] = "error" \/ ~known \/ lrel \/ est \in {"none", "gone"})
 
-W_NoStartedAfterCrash == ~(crashes > 0 /\ started /\ state = "S")
-W_NoIdOnlyRecord == ~(~up /\ rid # 0 /\ ~started)
+\* ---------------------------------------------------------------- witnesses (each must be violated)
+W_NoReconnect       == ~(reconn /\ Complete(st) /\ lout = eout /\ eout = MaxOut)
+W_NoCancelRetry     == ~(retried /\ ecan /\ st = "C")
+W_NoReleaseWithEGone == ~relGone
+W_NoGaveUp          == ~gaveUp
+W_NoReleaseBoth     == ~(ans["release"] = "ok" /\ ~known /\ est = "gone")
+W_NoCancelAfterRestart == ~(crashes > 0 /\ ecan /\ lcan)
+W_NoQuietMirror == ~(Quiet /\ known /\ started /\ ~lcan /\ ~gaveUp /\ ~Complete(st))
+W_NoQuietCancel == ~(Quiet /\ known /\ started /\ lcan /\ ~lrel /\ ~ecan)
 =============================================================================
